@@ -1008,6 +1008,8 @@ def _c10_live_sign_flips(rng, tier):
     built problem and with the independent frame"""
     fem = str(rng.choice(["tube", "wingbox"]))
     s = _as_surface(rng, tier, fem=fem)
+    s["twist_cp"] = np.zeros(3)          # flat, untwisted planform: +d and -d are exact mirror images of each other
+    s["mesh"][:, :, 2] = 0.0
     d0 = float(rng.uniform(3, 12))
     s["dihedral"] = d0
     ny = s["mesh"].shape[1]
